@@ -15,6 +15,8 @@ use crate::Undirected;
 
 #[cfg(feature = "stable_graph")]
 use crate::stable_graph::StableGraph;
+#[cfg(feature = "stable_graph")]
+use crate::unionfind::UnionFind;
 
 type Edge<G> = (<G as GraphBase>::NodeId, <G as GraphBase>::NodeId);
 type Subgraph<G> = HashSet<<G as GraphBase>::NodeId>;
@@ -195,6 +197,20 @@ where
         subgraph_edges.contains(&(edge.0, edge.1)) || subgraph_edges.contains(&(edge.1, edge.0))
     });
     graph.retain_nodes(|_, n| subgraph_nodes.contains(&n));
+
+    // The union of the shortest paths may contain cycles (two paths that part and meet again):
+    // keep a minimum spanning tree of it, as the Kou-Markowsky-Berman construction prescribes.
+    let mut union_edges: Vec<_> = graph
+        .edge_references()
+        .map(|e| (*e.weight(), e.id(), e.source(), e.target()))
+        .collect();
+    union_edges.sort_by(|a, b| a.0.cmp(&b.0));
+    let mut components = UnionFind::new(graph.node_bound());
+    for (_, id, source, target) in union_edges {
+        if !components.union(source.index(), target.index()) {
+            graph.remove_edge(id);
+        }
+    }
 
     let non_terminal_nodes = non_terminal_leaves(&graph, terminals);
     graph.retain_nodes(|_, n| !non_terminal_nodes.contains(&n));
